@@ -130,6 +130,7 @@ pub const GADGETS: &[&str] = &[
     "cond_enforce_equal", "cond_enforce_not_equal", "select", "new", "new_omit", "new_affine",
     "new_fq", "zero", "constant", "enforce_prime_order", "to_bits", "to_bytes", "lazy", "lazy.enc",
     "hist", "hist.enc",
+    "is_eq.mixed", "is_neq.mixed", "enforce_equal.mixed", "enforce_not_equal.mixed", "cond_enforce_equal.mixed", "cond_enforce_not_equal.mixed",
 ];
 
 macro_rules! el2 {
@@ -141,6 +142,22 @@ macro_rules! el2 {
             #[allow(unused_mut)]
             let mut $a = al_el(&cs, ea, mode)?;
             let $b = al_el(&cs, eb, mode)?;
+            h.arm();
+            $body
+        }) as Gad
+    }};
+}
+/// like el2, but the second operand is allocated as a CONSTANT (it keeps its internal representative: a witness / input is re-decoded
+/// in circuit to the canonical one), so the two operands can be different representatives of one element
+macro_rules! el2m {
+    ($g:ident, |$a:ident, $b:ident| $body:expr) => {{
+        let mode = parse_mode($g.next()?)?;
+        let ea = $g.el()?;
+        let eb = $g.el()?;
+        Box::new(move |cs: Cs, h: &Hints| -> SR<OV> {
+            #[allow(unused_mut)]
+            let mut $a = al_el(&cs, ea, mode)?;
+            let $b = al_el(&cs, eb, AllocationMode::Constant)?;
             h.arm();
             $body
         }) as Gad
@@ -319,6 +336,24 @@ fn build(name: &str, g: &mut Args) -> Result<Gad, Bad> {
         }),
         "enforce_not_equal" => el2!(g, |a, b| {
             a.enforce_not_equal(&b)?;
+            Ok(OV::Unit)
+        }),
+        "is_eq.mixed" => el2m!(g, |a, b| Ok(OV::Bo(a.is_eq(&b)?))),
+        "is_neq.mixed" => el2m!(g, |a, b| Ok(OV::Bo(a.is_neq(&b)?))),
+        "enforce_equal.mixed" => el2m!(g, |a, b| {
+            a.enforce_equal(&b)?;
+            Ok(OV::Unit)
+        }),
+        "enforce_not_equal.mixed" => el2m!(g, |a, b| {
+            a.enforce_not_equal(&b)?;
+            Ok(OV::Unit)
+        }),
+        "cond_enforce_equal.mixed" => el2m!(g, |a, b| {
+            a.conditional_enforce_equal(&b, &Boolean::TRUE)?;
+            Ok(OV::Unit)
+        }),
+        "cond_enforce_not_equal.mixed" => el2m!(g, |a, b| {
+            a.conditional_enforce_not_equal(&b, &Boolean::TRUE)?;
             Ok(OV::Unit)
         }),
         "cond_enforce_equal" | "cond_enforce_not_equal" | "select" => {
